@@ -20,6 +20,8 @@ import (
 	"fmt"
 	"os"
 	"regexp"
+	"sync"
+	"time"
 
 	"verifharness/cmd/c06/pk"
 	"verifharness/hx"
@@ -57,6 +59,40 @@ type harness struct {
 	run    *hx.Run
 	model  *hx.Model
 	maxRec int
+
+	// watchdog: the case the real scanner/parser is working on right now
+	mu      sync.Mutex
+	current *Case
+	started time.Time
+}
+
+// watch reports a parse that does not return (a hang cannot be recovered from inside the process):
+// the case is recorded as a violation and the harness ends.
+func (h *harness) watch(limit time.Duration) {
+	for {
+		time.Sleep(500 * time.Millisecond)
+		h.mu.Lock()
+		c, t0 := h.current, h.started
+		h.mu.Unlock()
+		if c != nil && time.Since(t0) > limit {
+			h.run.Oblige("oracle: the parser returns (no hang)", "oracle", 1, false, "hang")
+			h.run.Violate("crash", fmt.Sprintf("hang: the scanner/parser did not return within %v on a %d-byte text", limit, len(c.src())), "", false, *c)
+			h.run.Finish(nil)
+			os.Exit(0)
+		}
+	}
+}
+
+func (h *harness) begin(c *Case) {
+	h.mu.Lock()
+	h.current, h.started = c, time.Now()
+	h.mu.Unlock()
+}
+
+func (h *harness) end() {
+	h.mu.Lock()
+	h.current = nil
+	h.mu.Unlock()
 }
 
 const depthMsg = "maximum recursion depth exceeded"
@@ -74,13 +110,18 @@ type prepared struct {
 func (h *harness) prepare(c Case) *prepared {
 	src := c.src()
 	p := &prepared{c: c}
+	h.begin(&c)
 	sc := pk.Scan(src)
 	p.ntoks = len(sc.Toks)
 	if c.Mode == "value" {
 		p.real = pk.RealValue(src)
-		p.req = sc.Request("val", h.maxRec, false)
 	} else {
 		p.real = pk.RealDoc(src)
+	}
+	h.end()
+	if c.Mode == "value" {
+		p.req = sc.Request("val", h.maxRec, false)
+	} else {
 		p.req = sc.Request("doc", h.maxRec, false)
 	}
 	r := p.real
@@ -397,6 +438,7 @@ func main() {
 		mr = 1000
 	}
 	h.maxRec = mr
+	go h.watch(30 * time.Second)
 	if run.ModelPath != "" {
 		m, err := hx.StartModel(run.ModelPath)
 		if err != nil {
